@@ -35,6 +35,11 @@ EOF_ERRORS = [b'sec { a = 1', b'i =', b"s = 'unterminated\n\n", b's = "untermina
               b't "x"', b'i']
 
 
+# earlier inputs given to the same handle: (text, through a file?)
+HISTORY = [(b'i = 1\n\n\n# c\ni = 2\n', False), (b'\n\n\n\ns = "a\nb"\n', True), (b'i = 1\nbogus\n\n', False), (b'sec {\n a = 1\n', True),
+           (b'\n\ns = "open\n\n', False), (b'/* open\n\n\n', True), (b'', False), (b'il = {1,\n2,\n3}\n\n', False)]
+
+
 def build(prefix, err_text, err_off, placement, eof):
     """returns (scenario lines, expected (file, line))"""
     lines = gen.prelude(SCHEMA, 0)
@@ -102,7 +107,21 @@ def generate(rng, tier):
             else:
                 lines, exp = build(prefix, e, o, pl, eof)
             n += 1
-            yield Scn('e%d' % n, lines, {'class': '%s/%s' % (pl, 'eof' if eof else 'token'), 'expect': exp, 'noise': len(prefix),
+            hist = ''
+            if k % 3 == 0:
+                # earlier parses on the same handle (accepted and rejected, buffers and files, ending inside a string or
+                # comment): every parse starts counting at line 1 again and names its own input
+                h = [r.pick(HISTORY) for _ in range(1 + r.below(3))]
+                pre_cmds = []
+                for j, (ht, hfile) in enumerate(h):
+                    if hfile:
+                        pre_cmds += ['file %s file %s' % (hx(b'h%d.conf' % j), hx(ht)), 'parse_file 0 ' + hx(b'h%d.conf' % j)]
+                    else:
+                        pre_cmds.append('parse_buf 0 ' + hx(ht))
+                first_parse = next(i for i, l in enumerate(lines) if l.startswith('parse_') or l.startswith('file '))
+                lines = lines[:first_parse] + pre_cmds + lines[first_parse:]
+                hist = '+history'
+            yield Scn('e%d' % n, lines, {'class': '%s/%s%s' % (pl, 'eof' if eof else 'token', hist), 'expect': exp, 'noise': len(prefix),
                                          'err': e})
     # accepted texts: no diagnostic at all
     for i in range(30 if tier == 'quick' else 400):
